@@ -176,252 +176,3 @@ Proof.
       * left. exists b. exact H.
       * right. inversion H; subst. exists a, b. reflexivity.
 Qed.
-
-(* ---------------------------------------------------------------- Path.validate *)
-Lemma set_regex_fields p r :
-  p_regex (set_regex p r) = r /\ p_name (set_regex p r) = p_name p /\ p_source (set_regex p r) = p_source p /\
-  p_cam (set_regex p r) = p_cam p /\ p_secondary (set_regex p r) = p_secondary p.
-Proof. repeat split. Qed.
-
-Definition rpi_facts (all : list pathc) (taken taken' : list Z) (p : pathc) : Prop :=
-  match p_source p with
-  | SRpi =>
-      if p_secondary p
-      then (1 <= primaries_with (p_cam p) all)%nat /\ ~ In (p_cam p) taken /\ taken' = p_cam p :: taken
-      else (primaries_with (p_cam p) all <= 1)%nat /\ taken' = taken
-  | _ => taken' = taken
-  end.
-
-Local Opaque record_path_ok.
-Lemma validate_path_ok pb all taken p p' taken' :
-  validate_path pb all taken p = Ok (p', taken') ->
-  p' = set_regex p (name_is_regex (p_name p)) /\
-  path_documented_b pb p' = true /\
-  rpi_facts all taken taken' p.
-Proof.
-  unfold validate_path. destruct (path_ok pb all taken p) eqn:Hok; [|discriminate].
-  intros H; inversion H; subst p' taken'; clear H.
-  split; [reflexivity|].
-  unfold path_ok in Hok.
-  set (re := name_is_regex (p_name p)) in *. set (s := p_source p) in *.
-  apply andb_true_iff in Hok as [Hok H15].
-  apply andb_true_iff in Hok as [Hok H14]. apply andb_true_iff in Hok as [Hok H13].
-  apply andb_true_iff in Hok as [Hok H12]. apply andb_true_iff in Hok as [Hok H11].
-  apply andb_true_iff in Hok as [Hok H10]. apply andb_true_iff in Hok as [Hok H9].
-  apply andb_true_iff in Hok as [Hok H8]. apply andb_true_iff in Hok as [Hok H7].
-  apply andb_true_iff in Hok as [Hok H6]. apply andb_true_iff in Hok as [Hok H5].
-  apply andb_true_iff in Hok as [Hok H4]. apply andb_true_iff in Hok as [Hok H3].
-  apply andb_true_iff in Hok as [H1 H2].
-  split.
-  - unfold path_documented_b.
-    cbn [p_regex p_name p_record_path p_seg p_del p_source p_on_demand p_srt_read
-         p_srt_pub p_run_init p_run_demand p_aa p_abs_ts p_redirect p_tracks set_regex].
-    fold re. fold s.
-    repeat (apply andb_true_iff; split).
-    + apply eqb_reflx.
-    + exact H10.
-    + clear - H11. lia.
-    + clear - H12. lia.
-    + clear - H6. destruct (p_on_demand p), (is_static s), re; simpl in *; congruence.
-    + clear - H5. destruct (p_on_demand p), (src_eqb s SPublisher); simpl in *; congruence.
-    + clear - H7. unfold srt_len_ok in *. lia.
-    + clear - H2 H4. unfold source_ok in H4. subst s.
-      destruct (p_source p) as [| | |[]|]; simpl in *; unfold srt_len_ok in *; try lia.
-    + clear - H13. destruct (p_run_init p), re; simpl in *; congruence.
-    + clear - H14. destruct (p_run_demand p), (src_eqb s SPublisher); simpl in *; congruence.
-    + clear - H9. destruct (p_aa p), re, (p_on_demand p), (p_run_demand p), (p_aa_src_ok p), (p_abs_ts p); simpl in *; try congruence;
-        try reflexivity.
-    + clear - H4. unfold source_ok in H4. subst s. destruct (p_source p) as [| | |[]|]; simpl in *; congruence.
-    + clear - H4. unfold source_ok in H4. subst s. destruct (p_source p) as [| | |[]|]; simpl in *; congruence.
-    + clear - H3. destruct (p_redirect p), (src_eqb s SRedirect); simpl in *; congruence.
-    + exact H15.
-  - clear - H4. unfold rpi_facts, source_ok in *. subst s.
-    destruct (p_source p) as [| | |ok|]; simpl; try reflexivity.
-    apply andb_true_iff in H4 as [_ H4].
-    destruct (p_secondary p); simpl.
-    + apply andb_true_iff in H4 as [Ha Hb]. apply negb_true_iff in Ha, Hb.
-      apply Nat.eqb_neq in Ha. repeat split; [lia|].
-      intros Hin. assert (Ht : existsb (Z.eqb (p_cam p)) taken = true); [|rewrite Ht in Hb; discriminate].
-      apply existsb_exists. exists (p_cam p). split; [exact Hin|apply Z.eqb_refl].
-    + apply negb_true_iff in H4. apply Nat.ltb_ge in H4. split; [exact H4|reflexivity].
-Qed.
-Local Transparent record_path_ok.
-
-(* ---------------------------------------------------------------- all paths *)
-Definition fill (p : pathc) : pathc := set_regex p (name_is_regex (p_name p)).
-
-Lemma primaries_with_fill c ps : primaries_with c (map fill ps) = primaries_with c ps.
-Proof.
-  unfold primaries_with. induction ps as [|q r IH]; simpl; auto.
-  unfold is_primary in *. cbn [fill set_regex p_source p_secondary p_cam].
-  destruct (src_eqb (p_source q) SRpi && negb (p_secondary q) && (p_cam q =? c)); simpl; auto.
-Qed.
-
-Lemma sec_cams_fill ps : sec_cams (map fill ps) = sec_cams ps.
-Proof.
-  unfold sec_cams. induction ps as [|q r IH]; simpl; auto.
-  unfold is_sec in *. cbn [fill set_regex p_source p_secondary p_cam].
-  destruct (src_eqb (p_source q) SRpi && p_secondary q); simpl; rewrite IH; auto.
-Qed.
-
-Lemma nodup_b_of_NoDup l : NoDup l -> nodup_b l = true.
-Proof.
-  induction 1 as [|x r Hx _ IH]; simpl; auto.
-  rewrite IH, andb_true_r. apply negb_true_iff.
-  destruct (existsb (Z.eqb x) r) eqn:E; auto.
-  apply existsb_exists in E as (y & Hy & Hxy). apply Z.eqb_eq in Hxy. subst. contradiction.
-Qed.
-
-Lemma nodup_b_NoDup l : nodup_b l = true -> NoDup l.
-Proof.
-  induction l as [|x r IH]; simpl; intros H; constructor.
-  - apply andb_true_iff in H as [H _]. apply negb_true_iff in H. intros Hin.
-    assert (existsb (Z.eqb x) r = true); [|congruence].
-    apply existsb_exists. exists x. split; [exact Hin|apply Z.eqb_refl].
-  - apply IH. apply andb_true_iff in H as [_ H]. exact H.
-Qed.
-
-Definition rpi_one (all : list pathc) (p : pathc) : bool :=
-  negb (src_eqb (p_source p) SRpi) ||
-  if p_secondary p then Nat.leb 1 (primaries_with (p_cam p) all) else Nat.leb (primaries_with (p_cam p) all) 1.
-
-Lemma validate_paths_ok pb all : forall ps taken ps',
-  validate_paths pb all taken ps = Ok ps' ->
-  ps' = map fill ps /\
-  forallb (path_documented_b pb) ps' = true /\
-  forallb (rpi_one all) ps = true /\
-  (forall c, In c (sec_cams ps) -> ~ In c taken) /\ NoDup (sec_cams ps).
-Proof.
-  induction ps as [|p r IH]; intros taken ps' H; simpl in H.
-  - inversion H; subst. repeat split; auto; try constructor; try (intros c Hc; inversion Hc).
-  - destruct (validate_path pb all taken p) as [[p1 t1]|] eqn:Hp; [|discriminate].
-    destruct (validate_paths pb all t1 r) as [r1|] eqn:Hr; [|discriminate].
-    inversion H; subst ps'; clear H.
-    destruct (validate_path_ok _ _ _ _ _ _ Hp) as (-> & Hdoc & Hrpi).
-    destruct (IH _ _ Hr) as (-> & Hdocs & Hones & Hnot & Hnd).
-    split; [reflexivity|]. split; [simpl; rewrite Hdoc, Hdocs; reflexivity|].
-    unfold rpi_facts in Hrpi. unfold sec_cams, is_sec in *. simpl.
-    unfold rpi_one at 1.
-    destruct (p_source p) as [| | |ok|] eqn:Hs; simpl; try (subst t1; repeat split; auto; fail).
-    destruct (p_secondary p) eqn:Hsec; simpl.
-    + destruct Hrpi as (Hge & Hnt & ->).
-      split; [|split].
-      * rewrite Hones, andb_true_r. destruct (primaries_with (p_cam p) all); [lia|reflexivity].
-      * intros c [<-|Hc]; [exact Hnt|]. intros Hin. apply (Hnot c Hc). right; exact Hin.
-      * constructor; [|exact Hnd]. intros Hin. apply (Hnot _ Hin). left; reflexivity.
-    + destruct Hrpi as (Hle & ->).
-      split; [|split; auto].
-      rewrite Hones, andb_true_r. destruct (primaries_with (p_cam p) all) as [|[|n]]; try reflexivity; lia.
-Qed.
-
-(* ---------------------------------------------------------------- Conf.Validate *)
-Theorem validate_documented g o :
-  validate g = Ok o ->
-  (match g_read_buffer_count g with Some x => x | None => g_wqs g end) < 2 ^ 63 ->
-  documented_b o = true.
-Proof.
-  unfold validate. intros H Hrange.
-  set (wqs := match g_read_buffer_count g with Some x => x | None => g_wqs g end) in *.
-  destruct (g_read_to g <=? 0) eqn:H1; [discriminate|].
-  destruct (g_write_to g <=? 0) eqn:H2; [discriminate|].
-  destruct (wqs <=? 0) eqn:H3; [discriminate|].
-  destruct (negb (Z.land wqs (wqs - 1) =? 0)) eqn:H4; [discriminate|].
-  destruct (1472 <? g_udp g) eqn:H5; [discriminate|].
-  destruct (negb (g_other_ok g)) eqn:H6; [discriminate|].
-  destruct (Nat.ltb 1 (length (filter (fun p => is_alias (p_name p)) (g_paths g)))) eqn:H7; [discriminate|].
-  destruct (validate_paths (g_playback g) (g_paths g) [] (g_paths g)) as [ps|] eqn:Hps; [|discriminate].
-  inversion H; subst o; clear H.
-  destruct (validate_paths_ok _ _ _ _ _ Hps) as (-> & Hdocs & Hones & _ & Hnd).
-  unfold documented_b. cbn [g_read_to g_write_to g_wqs g_udp g_paths g_playback].
-  repeat (apply andb_true_iff; split).
-  - lia.
-  - lia.
-  - apply land_check_is_pow2; [lia|]. apply negb_false_iff in H4. apply Z.eqb_eq in H4. exact H4.
-  - lia.
-  - apply Nat.leb_le. apply Nat.ltb_ge in H7.
-    assert (Hf : forall l, length (filter (fun p => is_alias (p_name p)) (map fill l)) =
-                           length (filter (fun p => is_alias (p_name p)) l)).
-    { induction l as [|q r IH]; simpl; auto. cbn [fill set_regex p_name].
-      destruct (is_alias (p_name q)); simpl; rewrite IH; auto. }
-    rewrite Hf. exact H7.
-  - exact Hdocs.
-  - rewrite forallb_forall in *. intros q Hq. apply in_map_iff in Hq as (q0 & <- & Hq0).
-    specialize (Hones q0 Hq0). unfold rpi_one in Hones.
-    cbn [fill set_regex p_source p_secondary p_cam]. rewrite primaries_with_fill. exact Hones.
-  - rewrite sec_cams_fill. apply nodup_b_of_NoDup. exact Hnd.
-Qed.
-
-(* ---------------------------------------------------------------- what documented_b means *)
-Definition has (pat s : list Z) : Prop := exists a b, s = a ++ pat ++ b.
-
-Theorem documented_meaning g : documented_b g = true ->
-  0 < g_read_to g /\ 0 < g_write_to g /\
-  (exists k, 0 <= k /\ g_wqs g = 2 ^ k) /\
-  g_udp g <= 1472 /\
-  (length (filter (fun p => is_alias (p_name p)) (g_paths g)) <= 1)%nat /\
-  NoDup (sec_cams (g_paths g)) /\
-  forall p, In p (g_paths g) ->
-    (p_regex p = true <-> (p_name p = s_all \/ p_name p = s_all_others \/ exists r, p_name p = 126 :: r)) /\
-    has ph_path (p_record_path p) /\
-    (has (ph 115) (p_record_path p) \/
-     (has (ph 89) (p_record_path p) /\ has (ph 109) (p_record_path p) /\ has (ph 100) (p_record_path p) /\
-      has (ph 72) (p_record_path p) /\ has (ph 77) (p_record_path p) /\ has (ph 83) (p_record_path p))) /\
-    (g_playback g = true -> has (ph 102) (p_record_path p)) /\
-    p_seg p <= day_ns /\ (p_del p = 0 \/ p_seg p <= p_del p) /\
-    (p_regex p = true -> p_source p <> SPublisher -> p_source p <> SRedirect -> p_on_demand p = true) /\
-    (p_on_demand p = true -> p_source p <> SPublisher) /\
-    (p_source p = SRpi -> p_secondary p = false -> (primaries_with (p_cam p) (g_paths g) <= 1)%nat) /\
-    (p_source p = SRpi -> p_secondary p = true -> (1 <= primaries_with (p_cam p) (g_paths g))%nat) /\
-    (forall t, In t (p_tracks p) -> track_ok t = true).
-Proof.
-  unfold documented_b. intros H.
-  apply andb_true_iff in H as [H Hrpi]. apply andb_true_iff in H as [H Hpaths].
-  apply andb_true_iff in H as [H Halias]. apply andb_true_iff in H as [H Hudp].
-  apply andb_true_iff in H as [H Hpow]. apply andb_true_iff in H as [Hr Hw].
-  unfold rpi_documented_b in Hrpi. apply andb_true_iff in Hrpi as [Hone Hnd].
-  split; [lia|]. split; [lia|]. split; [eapply is_pow2_fuel_sound; exact Hpow|]. split; [lia|].
-  split; [apply Nat.leb_le; exact Halias|]. split; [apply nodup_b_NoDup; exact Hnd|].
-  intros p Hp. rewrite forallb_forall in Hpaths, Hone. specialize (Hpaths p Hp). specialize (Hone p Hp).
-  clear Hr Hw Hpow Hudp Halias Hnd.
-  unfold path_documented_b in Hpaths.
-  apply andb_true_iff in Hpaths as [Hpaths Ho].
-  apply andb_true_iff in Hpaths as [Hpaths Hn]. apply andb_true_iff in Hpaths as [Hpaths Hm].
-  apply andb_true_iff in Hpaths as [Hpaths Hl]. apply andb_true_iff in Hpaths as [Hpaths Hk].
-  apply andb_true_iff in Hpaths as [Hpaths Hj]. apply andb_true_iff in Hpaths as [Hpaths Hi].
-  apply andb_true_iff in Hpaths as [Hpaths Hh]. apply andb_true_iff in Hpaths as [Hpaths Hg].
-  apply andb_true_iff in Hpaths as [Hpaths Hf]. apply andb_true_iff in Hpaths as [Hpaths He].
-  apply andb_true_iff in Hpaths as [Hpaths Hd]. apply andb_true_iff in Hpaths as [Hpaths Hc].
-  apply andb_true_iff in Hpaths as [Ha Hb].
-  clear Hn Hm Hl Hk Hj Hi Hh Hg.
-  unfold record_path_ok in Hb.
-  apply andb_true_iff in Hb as [Hb Hb3]. apply andb_true_iff in Hb as [Hb1 Hb2].
-  split.
-  { clear - Ha. apply eqb_prop in Ha. rewrite Ha. unfold name_is_regex.
-    rewrite !orb_true_iff, !list_eqb_eq. split.
-    - intros [[H1|H1]|H1]; auto. destruct (p_name p) as [|c r]; [discriminate|].
-      right; right. destruct (Z.eq_dec c 126) as [->|Hne]; [eexists; reflexivity|].
-      exfalso. destruct (Z.eqb_spec c 126) as [|Hx]; [contradiction|].
-      destruct c as [|c|c]; try discriminate.
-      do 8 (destruct c as [c|c|]; try discriminate; try (apply Hne; reflexivity)).
-    - intros [H1|[H1|(r & H1)]]; auto. right. rewrite H1. reflexivity. }
-  split; [apply contains_spec; exact Hb1|].
-  split.
-  { clear - Hb2. apply orb_true_iff in Hb2 as [Hx|Hx]; [left; apply contains_spec; exact Hx|]. right.
-    apply andb_true_iff in Hx as [Hx H6]. apply andb_true_iff in Hx as [Hx H5].
-    apply andb_true_iff in Hx as [Hx H4]. apply andb_true_iff in Hx as [Hx H3].
-    apply andb_true_iff in Hx as [H1 H2].
-    repeat split; apply contains_spec; assumption. }
-  split.
-  { clear - Hb3. intros Hpb. rewrite Hpb in Hb3. simpl in Hb3. apply contains_spec; exact Hb3. }
-  split; [clear - Hc; lia|]. split; [clear - Hd; lia|].
-  split.
-  { clear - He. intros Hre Hnp Hnr. rewrite Hre in He.
-    destruct (p_source p); simpl in He; try congruence; exact He. }
-  split.
-  { clear - Hf. intros Hod Hs. rewrite Hod, Hs in Hf. discriminate. }
-  clear - Hone Ho.
-  split; [|split]; [intros Hs Hsec; rewrite Hs, Hsec in Hone; simpl in Hone ..|].
-  - destruct (primaries_with (p_cam p) (g_paths g)) as [|[|n]]; try discriminate; lia.
-  - destruct (primaries_with (p_cam p) (g_paths g)) as [|n]; try discriminate; lia.
-  - rewrite forallb_forall in Ho. exact Ho.
-Qed.
